@@ -348,6 +348,31 @@ func genC17(r *Run) {
 		}
 		run(false, nil)
 		run(true, nil)
+		if a.id == 16 {
+			// search lists the way servers send them: one full name, then many short names that end in a
+			// compression pointer to it (or to one of its later labels), up to the size of one option and beyond
+			for _, baseLabels := range []int{1, 2, 4, 6} {
+				for _, k := range []int{1, 2, 5, 8, 9, 10, 12, 20, 30, 60} {
+					var v []byte
+					var starts []int
+					for j := 0; j < baseLabels; j++ {
+						starts = append(starts, len(v))
+						l := r.Pick(3, 7, 11)
+						v = append(append(v, byte(l)), []byte("engineeringcorp")[:l]...)
+					}
+					v = append(v, 0)
+					for j := 0; j < k; j++ {
+						nm := fmt.Sprintf("site%02d", j)
+						t := starts[0]
+						if j%4 == 3 {
+							t = starts[r.Rng.Intn(len(starts))]
+						}
+						v = append(append(append(v, byte(len(nm))), nm...), 0xc0|byte(t>>8), byte(t))
+					}
+					run(true, v)
+				}
+			}
+		}
 		fills := r.N(4, 40)
 		for n := 0; n <= 64; n++ {
 			if n >= 6 {
